@@ -168,6 +168,15 @@ def class_configs(tier, seed):
             e["early"] = True
             early.append(e)
     out += early[:6]
+    # TLS 1.3 connections whose handshake went through a HelloRetryRequest (the middlebox-compatibility state of
+    # the handshake must not outlive it)
+    hrr = []
+    for c in out:
+        if tuple(c["ver"]) == (3, 4) and not c.get("early"):
+            e = dict(c)
+            e["hrr"] = True
+            hrr.append(e)
+    out += hrr[:2] if tier == "quick" else hrr
     # MAC-then-encrypt CBC records with the LONGEST admissible padding (a peer may pad up to 255 bytes, RFC 5246
     # 6.2.3.2): the receiver's constant-time MAC/padding check has a different geometry there
     longp = []
@@ -191,7 +200,8 @@ def class_configs(tier, seed):
     return out
 
 
-CONN_OPS = ["flipbody", "fliptag", "drop", "dup", "swap", "reflect", "trunc", "xepoch", "flipmid", "palert", "ccs13", "ssl2", "ssl2splice"]
+CONN_OPS = ["flipbody", "fliptag", "drop", "dup", "swap", "reflect", "trunc", "xepoch", "flipmid", "palert", "ccs13", "ssl2", "ssl2splice",
+            "pccs"]
 
 
 def setup_pair(cfg, tag):
@@ -200,7 +210,11 @@ def setup_pair(cfg, tag):
     from ..tracer import RecTracer
     ver = tuple(cfg["ver"])
     extra = {"useEncryptThenMAC": cfg["etm"]}
-    f = suites.force(cfg["sid"], ver, extra, dict(extra))
+    sextra = dict(extra)
+    if cfg.get("hrr"):
+        extra.update(keyShares=["x25519"], eccCurves=["x25519", "secp256r1"])
+        sextra.update(keyShares=["secp256r1"], eccCurves=["secp256r1"])
+    f = suites.force(cfg["sid"], ver, extra, sextra)
     p = Pair("c02-%d-%s" % (cfg["case"], tag))
     if cfg.get("early"):
         from tlslite.constants import ContentType, HandshakeType, ExtensionType
@@ -511,6 +525,12 @@ def conn_level(cfg, op, tier):
             # fabricated unprotected close_notify alert in front of the first protected record
             wire.insert(0, bytes([21, 3, 3, 0, 2, 1, 0]))
             tr.emit("A", op="forge", d=d, i=0, p=1)
+        elif op == "pccs":
+            # fabricated unprotected ChangeCipherSpec after the handshake: tolerated DURING a TLS 1.3 handshake only
+            # (the record layer hands a plaintext CCS upward in TLS 1.3 - adversary step "ccs" of Record.tla -, the
+            # connection has to refuse it)
+            wire.insert(0, bytes([20, 3, 3, 0, 1, 1]))
+            tr.emit("A", op="ccs" if ver == (3, 4) else "forge", d=d, i=0, p=1)
         elif op == "ccs13":
             m = bytearray(raw[tgt])
             m[0] = 20
@@ -622,6 +642,8 @@ def run(tier):
         from .. import suites as _su
         if _su.parse(c["sid"])["cipher"] == "null" and "ssl2splice" not in ops:
             ops = list(ops) + ["ssl2splice"]      # integrity-only suites: the splice is always tried
+        if c.get("hrr") and "pccs" not in ops:
+            ops = list(ops) + ["pccs"]
         for op in ops:
             jobs.append(("conn", c, op, tier))
     with Pool(16) as pool:
